@@ -115,3 +115,10 @@ Theorem C01_checks_nonvacuous :
   document_accepted (DE [97]%N [([120;109;108;110;115;58;120;109;108], [117])]%N []) = false.
 Proof. vm_compute. repeat split; reflexivity. Qed.
 Print Assumptions C01_checks_nonvacuous.
+
+(* 7. The last hypothesis of 6, unique attribute names, is established by construction: attributes are set one at a time under their whole
+      name (DetachableElement.setAttribute, source pinned), so whatever the sequence of calls no name occurs twice on an element *)
+Require Import PX.Model.Bind PX.Proofs.AttrUnique.
+Theorem C01_attributes_unique_by_construction : forall calls, dup_free (map fst (set_attributes calls)) = true.
+Proof. exact attributes_unique_by_construction. Qed.
+Print Assumptions C01_attributes_unique_by_construction.
